@@ -39,7 +39,7 @@ func TestMain(m *testing.M) {
 		"non-trivial = integer-kinded primary carrier against a fractional, negative or > 2^31 constraint, or multipleOf with |quotient| > 1e9, or a float32 carrier with a non-dyadic constraint, or a json.Number carrier; distinct by content hash",
 		"a float64 (value or constraint) stands for the decimal reading of its shortest round-trip text; values and constraints are integers within ±(2^53-1) (the safe-integer range, which is also what the library documents for integers carried by floats) or decimals with at most 6 fractional and 15 significant digits, so the reading is unambiguous; a float32 stands for its exact binary value",
 		"constraints that the declared type/format cannot represent (fractional bound on type integer, bound outside int32 for format int32) are outside the domain (the library has a dedicated 'boundary value must be of type' diagnosis); constructed away, counted as excluded when replayed",
-		"json.Number is a carrier at the schema entry only (the library documents its handling there, schema.go:183); parameter/header validators and the helpers take native numeric kinds",
+		"json.Number is a carrier at the schema entry and for the three *NativeType helpers (they take an interface{}); parameter/header validators take the typed value produced by parameter binding and report a json.Number as a value of the wrong type, and the typed helpers (MinimumInt, ...) cannot be handed one",
 		"the Int/Uint helper variants take the constraint as int64/uint64 by signature, so integer-kinded carriers at the 'helper' entry only meet integer (and for unsigned kinds non-negative) constraints",
 		"int and uint are 64 bits wide")
 	ev.Main(m, "C13")
@@ -172,7 +172,9 @@ func gen(t *rapid.T) Case {
 	var c Case
 	c.Carrier = pick(t, allCarriers, "carrier")
 	if c.Carrier == sm.JSONNumber {
-		c.Entry = eSchema
+		// parameter and header validators take the typed value produced by parameter binding and report a
+		// json.Number as a value of the wrong type (C16's ground); the typed helpers have no json.Number form
+		c.Entry = pick(t, []string{eSchema, eSchema, eNative}, "entry")
 	} else {
 		c.Entry = pick(t, entries, "entry")
 	}
@@ -680,7 +682,7 @@ func check(c Case) (out ev.Outcome) {
 		}
 	}
 	k := cons[0].r
-	if c.Carrier == sm.JSONNumber && c.Entry != eSchema {
+	if c.Carrier == sm.JSONNumber && c.Entry != eSchema && c.Entry != eNative {
 		return excluded("json.Number-outside-schema-validation")
 	}
 	helperCannotTake := func(kind string) bool {
@@ -719,7 +721,7 @@ func check(c Case) (out ev.Outcome) {
 	var all []obs
 	all = append(all, obs{kind: c.Carrier, value: primary})
 	for _, kind := range allCarriers {
-		if kind == c.Carrier || (kind == sm.JSONNumber && c.Entry != eSchema) || helperCannotTake(kind) {
+		if kind == c.Carrier || (kind == sm.JSONNumber && c.Entry != eSchema && c.Entry != eNative) || helperCannotTake(kind) {
 			continue
 		}
 		val, ok := sm.Carry(kind, c.V)
@@ -829,7 +831,13 @@ func check(c Case) (out ev.Outcome) {
 // the deviation is not a listed one.
 func classify(c Case, cons []constraint, value interface{}, got, want bool, dev sm.Dev) []string {
 	eff := value
-	if num, isNum := value.(json.Number); isNum {
+	if num, isNum := value.(json.Number); isNum && c.Entry == eNative {
+		if n, err := num.Int64(); err == nil {
+			eff = n
+		} else if f, err := num.Float64(); err == nil {
+			eff = f
+		}
+	} else if isNum {
 		switch c.Type {
 		case "":
 			// region: json.Number instance, schema declares no type: the library hands the value to the
